@@ -79,6 +79,11 @@ static Verdict judge(const Plan &plan, const OpResult &dry, const OpResult &r) {
     Verdict v;
     const Op &op = plan.tasks[0].ops[0];
     Shape sh = shape_of(op);
+    if (r.double_free) {
+        v.cls = "double-free";
+        v.detail = "the call released a block it had already released";
+        return v;
+    }
     if (r.outstanding) {
         v.cls = "leak";
         v.detail = std::to_string(r.outstanding) + " block(s) allocated by the call are still live at return";
@@ -248,6 +253,7 @@ int c20_batch(const Args &a) {
         st.nalloc_hist[(int)dry.nalloc]++;
         // no call leaks, faults or not
         st.leak_checks++;
+        if (dry.double_free) report(st, a, i, plan, "double-free", "?", "a call in which no allocation failed released a block twice");
         if (dry.outstanding) {
             std::string site = "?";
             for (auto &al : g_live) site = site_name(al.site);
